@@ -119,8 +119,23 @@ def run(prog, tier):
     dK, dm = M.atom("dK", 2, True), M.atom("dm", 1)
     gm = env.get("grad[self.mean_slice]")
     gc = env.get("grad[self.cov_slice]")
-    if not (isinstance(gm, ListV) and isinstance(gc, ListV) and len(gm.items) == 1 and len(gc.items) == 1):
-        raise AnalysisError("anchor vanished: gradient scatter into mean_slice / cov_slice in marginal_likelihood_gradient")
+    def per_parameter(v, which):
+        """One value per hyper-parameter: a comprehension over the gradient list, or a stacked product."""
+        if isinstance(v, ListV) and len(v.items) == 1:
+            return v.items[0], None
+        if isinstance(v, M) and v.rank == 0:
+            return None, (f"a single number ({v}) is broadcast into grad[{which}]: every hyper-parameter of that group gets the "
+                          f"same value instead of its own partial derivative")
+        if isinstance(v, M) and v.rank == 1 and all(w and w[0] == ("STACK", False) for w in v.terms):
+            return ncf.scalarise({w[1:]: c for w, c in v.terms.items()}), None
+        raise AnalysisError(f"anchor vanished: gradient scatter into {which} in marginal_likelihood_gradient ({v!r})")
+    gm, pm = per_parameter(gm, "self.mean_slice")
+    gc, pc_ = per_parameter(gc, "self.cov_slice")
+    for prob in (pm, pc_):
+        if prob:
+            obs.append(struct_ob("evidence-gradient-form", qual(c, mg) + "[scatter]", False, prob, REL, mg.lineno, tier="M"))
+    gm = ListV([gm if gm is not None else M({}, 0)])
+    gc = ListV([gc if gc is not None else M({}, 0)])
     want_m = alpha.matmul(A.matmul(dm))
     outer = M(ncf._mul(alpha.terms, ncf._row(alpha.terms)), 2)
     Q = outer - LinvT.matmul(Linv)
